@@ -209,3 +209,77 @@ func MetadataObjects(m *ir.Module) map[uintptr]string {
 	walk(reflect.ValueOf(m), 0)
 	return out
 }
+
+// HeapObjects returns the addresses of the objects reachable from m that a
+// module owns: everything behind a pointer except types (package ir/types,
+// shared by design: types.I32 and friends) and the values in skip (the exported
+// package-level singletons such as constant.True). The value is the Go type.
+// Backing arrays of non-empty slices are recorded too (keyed by the address of
+// their first element, type "[]T").
+func HeapObjects(m *ir.Module, skip map[uintptr]bool) map[uintptr]string {
+	out := map[uintptr]string{}
+	seen := map[uintptr]bool{}
+	var walk func(v reflect.Value, depth int)
+	walk = func(v reflect.Value, depth int) {
+		if !v.IsValid() || depth > 6000 {
+			return
+		}
+		switch v.Kind() {
+		case reflect.Interface:
+			if !v.IsNil() {
+				walk(v.Elem(), depth+1)
+			}
+		case reflect.Ptr:
+			if v.IsNil() {
+				return
+			}
+			p := v.Pointer()
+			if seen[p] {
+				return
+			}
+			seen[p] = true
+			et := v.Type().Elem()
+			if strings.HasSuffix(et.PkgPath(), "/ir/types") || skip[p] {
+				return
+			}
+			if et.Kind() == reflect.Struct && et.Size() > 0 {
+				out[p] = et.String()
+			}
+			if et == bigIntT || et == bigFloatT {
+				return
+			}
+			walk(v.Elem(), depth+1)
+		case reflect.Struct:
+			t := v.Type()
+			if t == bigIntT || t == bigFloatT {
+				return
+			}
+			for i := 0; i < t.NumField(); i++ {
+				if v.Field(i).CanInterface() {
+					walk(v.Field(i), depth+1)
+				}
+			}
+		case reflect.Slice:
+			if v.Len() > 0 {
+				p := v.Pointer()
+				if !seen[p] {
+					// (a one-element slice of a struct shares its address with the struct: keep both apart by type)
+					out[p] = v.Type().String()
+				}
+			}
+			for i := 0; i < v.Len(); i++ {
+				walk(v.Index(i), depth+1)
+			}
+		case reflect.Array:
+			for i := 0; i < v.Len(); i++ {
+				walk(v.Index(i), depth+1)
+			}
+		case reflect.Map:
+			for _, k := range v.MapKeys() {
+				walk(v.MapIndex(k), depth+1)
+			}
+		}
+	}
+	walk(reflect.ValueOf(m), 0)
+	return out
+}
